@@ -160,6 +160,65 @@ theorem va_arg_step (t : ATy) (g f off : Nat) (hg : g ≤ 6) (hf : f ≤ 8) (h8 
     · omega
     · simp [vaLoc]
   | arr e n => simp [vaArgOk] at hok
-  | agg u sz al ms => sorry
+  | agg u sz al ms =>
+    simp only [vaArgOk, Bool.and_eq_true, Bool.or_eq_true, decide_eq_true_eq] at hok
+    have hcl := classify_big (u := u) (al := al) (ms := ms) hok.1
+    simp only [assignStep, hcl, inMemory, roundUp, vaArg, regClass, vaArgMem, ATy.size, ATy.align]
+    simp
+    rcases hok.2 with ha | ha
+    · have hm : max 8 al = 8 := by omega
+      have c : ¬ (8 < al) := by omega
+      rw [hm]
+      simp only [c, if_false]
+      refine ⟨hg, hf, by omega, ?_, ?_⟩
+      · simp; omega
+      · simp [vaLoc]; omega
+    · subst ha
+      simp
+      refine ⟨hg, hf, by omega, ?_, ?_⟩
+      · omega
+      · simp [vaLoc]
+
+
+/-- **every `va_arg` finds its argument where the psABI put it**, by induction over the variadic arguments with
+    (gp_offset, fp_offset, overflow_arg_area) ~ (INTEGER registers used, SSE registers used, stack bytes used) as invariant -/
+theorem va_walk (ts : List ATy) : ∀ (g f off : Nat), g ≤ 6 → f ≤ 8 → off % 8 = 0 → ts.all vaArgOk = true →
+    (vaWalk { gpOffset := 8 * g, fpOffset := 48 + 16 * f, overflow := off } ts).map some
+      = (assignLoop (g, f, off) ts).2.map vaLoc := by
+  induction ts with
+  | nil => intro _ _ _ _ _ _ _; rfl
+  | cons t ts ih =>
+    intro g f off hg hf h8 hok
+    simp only [List.all_cons, Bool.and_eq_true] at hok
+    obtain ⟨h1, h2, h3, h4, h5⟩ := va_arg_step t g f off hg hf h8 hok.1
+    rw [vaWalk_cons, assignLoop_cons]
+    simp only [List.map_cons]
+    rw [h5, h4]
+    have hr : (assignStep (g, f, off) t).1 =
+        ((assignStep (g, f, off) t).1.1, (assignStep (g, f, off) t).1.2.1, (assignStep (g, f, off) t).1.2.2) := rfl
+    rw [hr, ih _ _ _ h1 h2 h3 hok.2]
+
+theorem assignLoop_append (xs ys : List ATy) : ∀ st,
+    (assignLoop st (xs ++ ys)).2 = (assignLoop st xs).2 ++ (assignLoop (assignLoop st xs).1 ys).2 := by
+  induction xs with
+  | nil => intro st; rfl
+  | cons x xs ih => intro st; simp only [List.cons_append, assignLoop_cons, ih, List.cons_append]
+
+theorem assignLoop_length (xs : List ATy) : ∀ st, (assignLoop st xs).2.length = xs.length := by
+  induction xs with
+  | nil => intro st; rfl
+  | cons x xs ih => intro st; simp only [assignLoop_cons, List.length_cons, ih]
+
+theorem refLoop_fst_bounds (ts : List ATy) : ∀ (gp fp off : Nat), off % 8 = 0 → (refLoop (gp, fp, off) ts).1.2.2 % 8 = 0 := by
+  induction ts with
+  | nil => intro _ _ _ h; exact h
+  | cons t ts ih =>
+    intro gp fp off h
+    rw [refLoop_cons]
+    have hr : (refStep (gp, fp, off) t).1 =
+        ((refStep (gp, fp, off) t).1.1, (refStep (gp, fp, off) t).1.2.1, (refStep (gp, fp, off) t).1.2.2) := rfl
+    rw [hr]
+    apply ih
+    cases t <;> simp only [refStep] <;> (try split) <;> (try simp) <;> omega
 
 end ChibiVerif.CallConv
